@@ -13,6 +13,7 @@ FIXED = [
     ("K", ["C11"], "9eb31df", "new_cells with a malformed formula left a half-constructed cells registered"),
     ("L", ["C11"], "b3e5adc", "assigning an invalid space formula deleted the old formula first"),
     ("T", ["C12"], "713ee47", "mxsys._check_sanity() failed after `model.r = space` (model-level reference to a modelx object)"),
+    ("Z", ["C12"], "a821d82", "mxsys._check_sanity() failed on a consistent model with same-named spaces at different levels (B.Ch and B.Gc.Ch)"),
     ("B", ["C03"], "ea50013", "redefining a base cells overwrote defined overrides and copies derived from an override in between"),
     ("D", ["C03"], "4daecfe", "a cells newly defined in a nearer base was ignored by subs deriving the name from a farther base"),
     ("E", ["C03", "C10"], "379b44b", "new_ref/change_ref stopped at the first sub with its own definition; sibling subs kept stale derived references"),
@@ -22,6 +23,10 @@ FIXED = [
     ("H", ["C02", "C07", "C13"], "c60c4b2", "deleting a cells of a child space of a parametrised space kept the ItemSpaces (`I[1].Ch.icc(1)` kept answering)"),
     ("W", ["C07"], "deee8ab", "allow_none of a cells / child space was not carried into ItemSpaces: `A.c(1)` returned None but `A[1].c(1)` raised NoneReturnedError"),
     ("X", ["C03", "C07"], "c967a5a", "allow_none set on a base cells/space after derivation or instantiation was not passed on to derived cells and live ItemSpaces (`B<-A; A.c.allow_none=True; B.c(1)` raised NoneReturnedError)"),
+    ("V", ["C02", "C09"], "699917d", "a reference created/changed/deleted in a space did not clear cached cells of other spaces computed through an uncached cells of that space (`B.c: _model.A.u(i)`, `A.u` uncached reading `x`; `A.x = 2` left `B.c(1)` stale)"),
+    ("Y", ["C02", "C07"], "4c373e1", "creating/deleting a reference in a child space of a parametrised space (or in a space used as `base`) kept the live ItemSpaces (`Ch.g = 70` / `del Ch.s` left `A[1].Ch.f(0)` stale or raising NameError)"),
+    ("AA", ["C02", "C06"], "bcf6de5", "clear_attr_referrers left the dependents of cleared elements in the reference graph; an input assigned to such an element later was wiped by a change of a reference its old computation had read"),
+    ("BB", ["C02", "C09", "C13"], "f376ff6", "deleting a space kept values computed through its uncached cells (`T.tb: _model.D.bc(x)`, `D.bc` uncached, `del model.D`)"),
     ("M", ["C15"], "b10cccc", "export: names in a comprehension following a nested class/def scope were not rewritten to self.<name> (NameError in the package)"),
     ("N", ["C17"], "c0724cd", "nodes rolled back by a failure a formula handled leaked into the next traceback"),
     ("O", ["C04"], "14fa167", "`_is_cached = False` of a lambda-defined cells was written but not read back"),
